@@ -26,6 +26,7 @@ package rest
 //                           (current version under vv), body and tombstone flag on both admin APIs
 //   caught_up_no_transfer   re-running the caught-up replication reads / writes zero documents
 //   resolver_symmetric      both orientations of DefaultConflictResolver keep the same revision
+//   resolver_policy         DefaultConflictResolver keeps the revision that is highest by (deleted, generation, digest)
 //   admin_api_consistent    the admin REST view of a document equals the stored document
 
 import (
@@ -178,7 +179,45 @@ func (e *c06Env) write(side int, docID string, kind int, body string) bool {
 		e.fail("write kind=%d on %s side %d: %d %s", kind, docID, side, resp.Code, resp.BodyString())
 		return false
 	}
-	return true
+	return e.waitVisible(side)
+}
+
+// wait until the changes feed of a side (what a replication reads) shows the current revision of every
+// document: a write is acknowledged before the change cache has seen its sequence
+func (e *c06Env) waitVisible(side int) bool {
+	rt := e.rt(side)
+	deadline := time.Now().Add(30 * time.Second)
+	for {
+		resp := rt.SendAdminRequest(http.MethodGet, "/"+rt.GetSingleKeyspace()+"/_changes?since=0", "")
+		var feed struct {
+			Results []struct {
+				ID      string              `json:"id"`
+				Changes []map[string]string `json:"changes"`
+			} `json:"results"`
+		}
+		ok := resp.Code == 200 && json.Unmarshal(resp.BodyBytes(), &feed) == nil
+		if ok {
+			seen := map[string]string{}
+			for _, r := range feed.Results {
+				if len(r.Changes) > 0 {
+					seen[r.ID] = r.Changes[0]["rev"]
+				}
+			}
+			for _, d := range e.docs {
+				if o := e.observe(side, d); o.Exists && seen[d] != o.Rev {
+					ok = false
+				}
+			}
+		}
+		if ok {
+			return true
+		}
+		if time.Now().After(deadline) {
+			e.fail("changes feed of side %d did not catch up with the documents within 30s", side)
+			return false
+		}
+		time.Sleep(10 * time.Millisecond)
+	}
 }
 
 func (e *c06Env) replStatus(id string) (db.ReplicationStatus, bool) {
@@ -222,6 +261,9 @@ func (e *c06Env) waitStatus(id, want string, timeout time.Duration) (db.Replicat
 
 // a one-shot replication with a fresh id (no checkpoint is reused), run to completion
 func (e *c06Env) oneShot(dir db.ActiveReplicatorDirection) (db.ReplicationStatus, bool) {
+	if !e.waitVisible(0) || !e.waitVisible(1) {
+		return db.ReplicationStatus{}, false
+	}
 	e.nrepl++
 	id := fmt.Sprintf("c06one%d", e.nrepl)
 	if !e.createRepl(id, dir, false) {
@@ -659,7 +701,8 @@ func c06Corpus() []c06Scenario {
 		{"fillers", []c06Step{c06W(A, 0, c06Edit, 2), push, c06W(A, 0, c06Edit, 3), c06W(A, 0, c06Edit, 4), c06W(A, 0, c06Delete, 0),
 			c06W(B, 0, c06Edit, 5), pull, push}},
 		// the two divergences the model exposes (see C06_Refuted.v)
-		{"delete-after-local-wins", []c06Step{c06W(A, 0, c06Edit, 2), c06W(A, 0, c06Edit, 2), c06W(B, 0, c06Edit, 3), pull, c06W(A, 0, c06Delete, 0)}},
+		{"delete-after-local-wins", []c06Step{c06W(A, 0, c06Edit, 2), c06W(A, 0, c06Edit, 2), c06W(B, 0, c06Edit, 4), pull, c06W(A, 0, c06Delete, 0)}},
+		{"delete-after-disjoint-pull", []c06Step{c06W(A, 0, c06Edit, 2), c06W(A, 0, c06Delete, 0), c06W(B, 0, c06Edit, 4), pull, c06W(A, 0, c06Delete, 0)}},
 		{"resurrect-after-remote-delete", []c06Step{c06W(A, 0, c06Edit, 2), c06W(A, 0, c06Edit, 2), c06W(B, 0, c06Edit, 2), c06W(B, 0, c06Delete, 0), pull, c06W(A, 0, c06Resurrect, 4)}},
 		// continuous sessions: start, write on both sides, stop, write, restart
 		{"session-both", []c06Step{c06W(A, 0, c06Edit, 2), c06W(B, 1, c06Edit, 3), {Kind: "start", Dir: "both"}, c06W(B, 0, c06Edit, 3), c06W(A, 1, c06Edit, 4),
@@ -668,15 +711,64 @@ func c06Corpus() []c06Scenario {
 	}
 }
 
-func c06StateSig(a, b c06Obs, pushConflict bool) string {
-	s := "diverged:A=" + a.state() + ",B=" + b.state()
-	if a.state() == b.state() {
-		s += ",different-revision"
+// stable identification of a divergence: protocol, what each side shows, and -- for the two shapes the
+// model predicts (C06_Refuted.v) -- the structural cause read off the active side's revision tree
+func c06CorpusVV() []c06Scenario {
+	A, B := 0, 1
+	pull := c06Step{Kind: "pull"}
+	return []c06Scenario{
+		// the same document created independently on both sides (same revision-tree id, different versions);
+		// doc 1: created on both sides with different bodies
+		{"same-body-both-sides", []c06Step{c06W(A, 0, c06Edit, 3), c06W(B, 0, c06Edit, 3), c06W(A, 1, c06Edit, 2), c06W(B, 1, c06Edit, 3), pull}},
+		{"same-body-both-sides-reversed", []c06Step{c06W(B, 0, c06Edit, 3), c06W(A, 0, c06Edit, 3), pull}},
 	}
-	if pushConflict {
-		s += ",push-rejected-409"
+}
+
+func c06StateSig(v4 bool, a, b c06Obs) string {
+	s := "rt:"
+	if v4 {
+		s = "vv:"
 	}
-	return s
+	s += "diverged:active=" + a.state() + ",passive=" + b.state()
+	parent := map[string]string{}
+	deleted := map[string]bool{}
+	isParent := map[string]bool{}
+	for _, n := range a.Tree {
+		parent[n.ID] = n.Parent
+		deleted[n.ID] = n.Deleted
+		if n.Parent != "" {
+			isParent[n.Parent] = true
+		}
+	}
+	descends := func(x, anc string) bool {
+		for i := 0; x != "" && i < 1000; i++ {
+			if x == anc {
+				return true
+			}
+			x = parent[x]
+		}
+		return false
+	}
+	cause := "other"
+	switch {
+	case a.state() == "deleted" && b.state() == "deleted":
+		cause = "different-tombstone"
+	case a.state() == "deleted" && b.state() == "live":
+		// the delete of the passive side's revision exists on the active side but is not its current revision
+		for id := range parent {
+			if deleted[id] && !isParent[id] && id != a.Rev && descends(id, b.Rev) && !descends(a.Rev, b.Rev) {
+				cause = "outranked-tombstone"
+			}
+		}
+	case a.state() == "live" && b.state() == "deleted":
+		// the active side's live revision extends one of its own tombstones
+		for x := parent[a.Rev]; x != ""; x = parent[x] {
+			if deleted[x] {
+				cause = "resurrected-local-tombstone"
+			}
+		}
+	}
+	return s + ":" + cause
 }
 
 func c06Proto(v4 bool) string {
@@ -736,7 +828,7 @@ func c06RunScenario(t *testing.T, rec *vRecorder, stream string, sc c06Scenario,
 					same = same && a.Rev == b.Rev
 				}
 				if !same {
-					rec.Fail("peers_converged", c06StateSig(a, b, pushConflicts > 0), input,
+					rec.Fail("peers_converged", c06StateSig(v4, a, b), input,
 						fmt.Sprintf("doc %d after the final pull;push: active {rev %s cv %s deleted %v body %s} passive {rev %s cv %s deleted %v body %s}; push reported %d conflict(s)",
 							i, a.Rev, a.CV, a.Deleted, a.Body, b.Rev, b.CV, b.Deleted, b.Body, pushConflicts))
 				}
@@ -753,7 +845,7 @@ func c06RunScenario(t *testing.T, rec *vRecorder, stream string, sc c06Scenario,
 				}
 			}
 			if again[0].DocsRead != 0 || again[1].DocsWritten != 0 {
-				rec.Fail("caught_up_no_transfer", fmt.Sprintf("rerun-transfers:read=%d,written=%d", again[0].DocsRead, again[1].DocsWritten), input,
+				rec.Fail("caught_up_no_transfer", "rerun-transfers-documents", input,
 					fmt.Sprintf("re-running the caught-up replication read %d and wrote %d documents (checked %d/%d)", again[0].DocsRead, again[1].DocsWritten, again[0].DocsCheckedPull, again[1].DocsCheckedPush))
 			}
 			nontrivial := hasConflictShape || hasDelete
@@ -855,12 +947,12 @@ func c06RunBurst(t *testing.T, rec *vRecorder, rng *vRand, v4 bool, idx int) {
 			same = same && a.Rev == b.Rev
 		}
 		if !same {
-			rec.Fail("peers_converged", c06StateSig(a, b, q1.DocWriteConflict > 0), input,
-				fmt.Sprintf("doc %d at quiescence: active {rev %s cv %s deleted %v body %s} passive {rev %s cv %s deleted %v body %s}", i, a.Rev, a.CV, a.Deleted, a.Body, b.Rev, b.CV, b.Deleted, b.Body))
+			rec.Fail("peers_converged", c06StateSig(v4, a, b), input,
+				fmt.Sprintf("doc %d at quiescence: active {rev %s cv %s deleted %v body %s} passive {rev %s cv %s deleted %v body %s}; the catch-up push reported %d conflict(s)", i, a.Rev, a.CV, a.Deleted, a.Body, b.Rev, b.CV, b.Deleted, b.Body, q1.DocWriteConflict))
 		}
 	}
 	if p2.DocsRead != 0 || q2.DocsWritten != 0 {
-		rec.Fail("caught_up_no_transfer", fmt.Sprintf("rerun-transfers:read=%d,written=%d", p2.DocsRead, q2.DocsWritten), input, "re-running the caught-up replication transferred documents")
+		rec.Fail("caught_up_no_transfer", "rerun-transfers-documents", input, fmt.Sprintf("re-running the caught-up replication read %d and wrote %d documents", p2.DocsRead, q2.DocsWritten))
 	}
 	rec.Count(stream, "burst", strings.Join(descs, ";"), true)
 	for _, m := range e.infra {
@@ -897,6 +989,22 @@ func c06ResolverStream(t *testing.T, rec *vRecorder, rng *vRand) {
 		w2, _ := run(rd, r, ld, l)
 		rec.Case("resolver", "resolver", fmt.Sprintf("CResolver %s %s %s %s %s", cqBool(ld), rev(l), cqBool(rd), rev(r), cqBool(localWon)),
 			map[string]any{"local": []any{ld, l}, "remote": []any{rd, r}, "local_won": localWon}, ld != rd || l[:1] == r[:1])
+		// the documented policy: the revision whose (deleted, generation, digest) compares highest; local on a tie
+		genOf := func(id string) int { g, _ := strconv.Atoi(id[:strings.IndexByte(id, '-')]); return g }
+		digOf := func(id string) string { return id[strings.IndexByte(id, '-')+1:] }
+		wantLocal := true
+		switch {
+		case ld != rd:
+			wantLocal = ld
+		case genOf(l) != genOf(r):
+			wantLocal = genOf(l) > genOf(r)
+		default:
+			wantLocal = digOf(l) >= digOf(r)
+		}
+		if localWon != wantLocal {
+			rec.Fail("resolver_policy", "resolver-not-highest-deleted-generation-digest", map[string]any{"local": []any{ld, l}, "remote": []any{rd, r}},
+				fmt.Sprintf("DefaultConflictResolver kept %s; the (deleted, generation, digest) order keeps the %s revision", w1, map[bool]string{true: "local", false: "remote"}[wantLocal]))
+		}
 		if l != r && w1 != w2 {
 			rec.Fail("resolver_symmetric", "resolver-choice-depends-on-side", map[string]any{"x": []any{ld, l}, "y": []any{rd, r}},
 				fmt.Sprintf("local=x remote=y keeps %s, local=y remote=x keeps %s", w1, w2))
@@ -930,6 +1038,10 @@ func TestVerifC06(t *testing.T) {
 		t.Run(fmt.Sprintf("burst-%d", i), func(t *testing.T) { c06RunBurst(t, rec, rng, false, i) })
 	}
 	// version-vector protocol: same shapes, monitors only
+	for _, sc := range c06CorpusVV() {
+		sc := sc
+		t.Run("vv-corpus-"+sc.name, func(t *testing.T) { c06RunScenario(t, rec, "vv", sc, true, false) })
+	}
 	nVV := vBudget(3, 24)
 	for i := 0; i < nVV; i++ {
 		sc := c06Scenario{name: fmt.Sprintf("vv-%d-%d", vSeed(), i), plan: c06Plan(rng, 5+rng.Intn(6), 3)}
